@@ -234,3 +234,54 @@ Example C04_bufs_nonvacuous :
   UndoBufsDefs.cur_text s3 = Some (map nl [ch 99 1; ch 99 2; ch 99 3; ch 99 4])%N /\
   UndoBufsDefs.cur_id_of s2 = 3%Z /\ ExUndoBufs.dest 2 0 = 1.
 Proof. vm_compute. repeat split. Qed.
+
+(* ------------------------------------------------------------------------------------------ *)
+(* THE HISTORY IS NEVER TRUNCATED (round g/h seeds; definitions in UndoWalkDefs.v, proofs in UndoWalk.v).
+   Corollaries of C04_refines, stated on their own because a bounded history is exactly what they exclude: whatever
+   the number of entries the log holds (there is no bound anywhere in the statements), a complete undo walk from the
+   state reached by ANY operation list succeeds exactly once per step of the stack, brings back the texts of the stack one
+   by one, ends on the text the buffer was loaded with, and only then fails; the same upwards for redo. *)
+From NV Require UndoWalkDefs UndoWalk.
+
+Theorem C04_undo_walk_complete : forall (t0 : text) (u0 : Z) (ops : list op), Forall line_wf t0 ->
+  let sp := spec_ops (ustack_init t0 u0) ops in
+  run_trace (run_ops (lbuf_loaded t0 u0) ops) (repeat Undo (length (past sp)) ++ [Undo]) =
+  map (fun x => (snd x, true)) (past sp) ++ [(t0, false)].
+Proof. exact UndoWalk.undo_walk_complete. Qed.
+Print Assumptions C04_undo_walk_complete.
+
+Theorem C04_redo_walk_complete : forall (t0 : text) (u0 : Z) (ops : list op), Forall line_wf t0 ->
+  let sp := spec_ops (ustack_init t0 u0) ops in
+  run_trace (run_ops (lbuf_loaded t0 u0) ops) (repeat Redo (length (future sp)) ++ [Redo]) =
+  map (fun x => (snd x, true)) (future sp) ++ [(UndoWalkDefs.top sp, false)].
+Proof. exact UndoWalk.redo_walk_complete. Qed.
+Print Assumptions C04_redo_walk_complete.
+
+(* command level (every command closed by the counter bump): after ANY list of commands -- each making any number of
+   edit calls --, the number of undos that succeed is the number of entries of the one-entry-per-command stack, the
+   texts they bring back are its texts (the text before each not-yet-undone modifying command, most recent first), the
+   last one is the loaded text t0, and one more undo fails leaving t0; the redo walk likewise.  If every editing command
+   passes a text in at least one of its calls (`logs`: such a call is never the early return of lbuf_edit), those numbers are
+   the ones counted on the command list alone (UndoWalkDefs.live: +1 per editing command, -1 per successful undo, the
+   redo count reset by every editing command) -- the number of undoable steps IS the number of modifying commands not yet undone. *)
+Theorem C04_history_never_truncated : forall (t0 : text) (u0 : Z) (cs : list cmd), Forall line_wf t0 ->
+  let lb := run_ops (lbuf_loaded t0 u0) (UndoWalkDefs.ops_of_cmds cs) in
+  let cst := UndoWalkDefs.cspec_cmds (cstack_init t0) cs in
+  run_trace lb (repeat Undo (length (cpast cst)) ++ [Undo]) = map (fun t => (t, true)) (cpast cst) ++ [(t0, false)] /\
+  run_trace lb (repeat Redo (length (cfuture cst)) ++ [Redo]) =
+    map (fun t => (t, true)) (cfuture cst) ++ [(last (cfuture cst) (ccur cst), false)] /\
+  (forallb UndoWalkDefs.logs cs = true -> (length (cpast cst), length (cfuture cst)) = UndoWalkDefs.live cs 0 0).
+Proof. exact UndoWalk.history_never_truncated. Qed.
+Print Assumptions C04_history_never_truncated.
+
+(* not vacuous, and with a log longer than two growth steps of hist[] (HIST_INIT = 128): a command of 300 edit calls, a
+   second command, undo, redo, undo: 301 entries in the log, one step undoable and one redoable, the first undo of the
+   walk removes all 300 entries at once and gives the loaded text back, the next one fails *)
+Example C04_history_nonvacuous :
+  let a := [97; 10]%N in let x := [120; 10]%N in
+  let cs := [CEdits (repeat (Some x, 0, 0) 300); CEdits [(Some a, 0, 1)]; CUndo; CRedo; CUndo] in
+  let lb := run_ops (lbuf_loaded [a] 1) (UndoWalkDefs.ops_of_cmds cs) in
+  Forall line_wf [a] /\ forallb UndoWalkDefs.logs cs = true /\ UndoWalkDefs.live cs 0 0 = (1, 1) /\
+  length (hist lb) = 301 /\ hist_u lb = 300 /\ length (ln lb) = 301 /\
+  run_trace lb [Undo; Undo] = [([a], true); ([a], false)].
+Proof. split; [repeat constructor | vm_compute; repeat split]. Qed.
